@@ -123,6 +123,7 @@ pub struct Mon {
   pub norepeat_window: bool,
   pub windows: Vec<Window>,
   pub suspect: KeySet,
+  pub recovered: KeySet, // absorbed once, then really released and pressed again, still held
   pub refire: Option<(KeyCode, KeyCode, KeySet, u8)>,
 }
 
@@ -162,6 +163,7 @@ impl Mon {
     self.norepeat_window = false;
     self.windows.clear();
     self.suspect.clear();
+    self.recovered.clear();
     self.refire = None;
   }
 
@@ -248,7 +250,12 @@ impl Mon {
     if info.absorbing {
       self.windows.retain(|w| w.m != k);
       if is_press && acted_phys {
-        self.suspect.remove(k);
+        if self.suspect.remove(k) {
+          self.recovered.insert(k);
+        }
+      }
+      if !is_press {
+        self.recovered.remove(k);
       }
     }
     // (a physically duplicate press counts as a press here: the mapper acts on it when it has
@@ -555,11 +562,14 @@ impl Mon {
         }
         // (d) M counts again: the physically last-listed satisfied mapping fires when none of
         // its trigger keys can still be absorbed
-        if info.all_absorbing_tagged && is_press && acted_phys {
+        // (only where the property speaks: the mapping requires a key that was absorbed and has
+        // been released and pressed again, and it is the only mapping satisfied at this press,
+        // so that no precedence rule is involved)
+        if info.all_absorbing_tagged && is_press && acted_phys && info.satisfied_count(k, &phys_before) == 1 {
           if let Some(i) = fired_phys {
             let m = info.m(i);
             if let Some(t) = info.tag_of[i] {
-              if !m.from.iter().any(|x| self.suspect.contains(*x)) && !pressed_tags.iter().any(|(pt, _)| *pt == t) {
+              if m.from.iter().any(|x| self.recovered.contains(*x)) && !m.from.iter().any(|x| self.suspect.contains(*x)) && !pressed_tags.iter().any(|(pt, _)| *pt == t) {
                 out.push(v(8, "modifier-does-not-count-again", format!("press {} with {:?} held: mapping {} is the last listed satisfied one and none of its trigger keys is absorbed, but {} was not pressed [{}]", key_name(k), phys_before.names(), mapping_text(m), key_name(t), evs_text(events))));
               }
             }
